@@ -46,7 +46,11 @@ class VLoop(base_events.BaseEventLoop):
 
     def is_running(self):
         # IPC code asks loop.is_running(); the harness "runs" the loop by stepping it
-        return True
+        return not getattr(self, "_vclosed", False)
+
+    def close(self):
+        self._vclosed = True
+        super().close()
 
     # -- stepping ---------------------------------------------------------------------------
     def step(self):
